@@ -69,7 +69,7 @@ fn spelling<const K: u8>() {
     assert!(errors() == e0, "C04: a well-formed directive reports no error");
     std::mem::forget(a);
 }
-macro_rules! sp_h { ($($n:ident: $k:expr;)*) => { $(#[kani::proof] #[kani::unwind(7)] #[kani::stub(std::ptr::drop_in_place, no_drop)] #[kani::stub(core::ptr::drop_glue, no_glue)] #[kani::stub(alloc::alloc::dealloc, no_dealloc)] fn $n() { spelling::<$k>() })* } }
+macro_rules! sp_h { ($($n:ident: $k:expr;)*) => { $(#[kani::proof] #[kani::unwind(7)] #[kani::stub(std::ptr::drop_in_place, no_drop)] #[kani::stub(core::ptr::drop_glue, no_glue)] #[kani::stub(std::vec::Vec::extend_from_slice, extend_from_slice_model)] #[kani::stub(alloc::alloc::dealloc, no_dealloc)] fn $n() { spelling::<$k>() })* } }
 sp_h! { dirspell_kebab: 0; dirspell_camel: 1; dirspell_camel_inner_upper: 2; dirspell_one_modifier: 3; dirspell_two_modifiers: 4;
         dirspell_ns_arg: 5; dirspell_ns_arg_modifier: 6; dirspell_camel_ns: 7; dirspell_show: 8; dirspell_kebab_inner: 9;
         dirspell_name_starts_with_v: 10; dirspell_ns_name_starts_with_v: 11; dirspell_suffix_with_array_form: 12;
@@ -116,7 +116,7 @@ fn value_form<const F: u8>() {
     }
     std::mem::forget(a);
 }
-macro_rules! vf_h { ($($n:ident: $k:expr;)*) => { $(#[kani::proof] #[kani::unwind(12)] #[kani::stub(std::ptr::drop_in_place, no_drop)] #[kani::stub(core::ptr::drop_glue, no_glue)] #[kani::stub(alloc::alloc::dealloc, no_dealloc)] fn $n() { value_form::<$k>() })* } }
+macro_rules! vf_h { ($($n:ident: $k:expr;)*) => { $(#[kani::proof] #[kani::unwind(12)] #[kani::stub(std::ptr::drop_in_place, no_drop)] #[kani::stub(core::ptr::drop_glue, no_glue)] #[kani::stub(std::vec::Vec::extend_from_slice, extend_from_slice_model)] #[kani::stub(alloc::alloc::dealloc, no_dealloc)] fn $n() { value_form::<$k>() })* } }
 vf_h! { dirval_v: 0; dirval_v_arg: 1; dirval_v_mods: 2; dirval_v_arg_mods: 3; dirval_empty_array: 4; dirval_hole: 5; dirval_absent: 6; dirval_string: 7; dirval_nonident_modifier: 8; }
 
 /// v-html / v-text (C04 value, C08 totality over every attribute-value kind).
@@ -143,7 +143,7 @@ fn html_text<const TEXT: bool, const KIND: u8>() {
     }
     std::mem::forget(d); std::mem::forget(a);
 }
-macro_rules! ht_h { ($($n:ident: $t:expr, $k:expr;)*) => { $(#[kani::proof] #[kani::unwind(8)] #[kani::stub(std::ptr::drop_in_place, no_drop)] #[kani::stub(core::ptr::drop_glue, no_glue)] #[kani::stub(alloc::alloc::dealloc, no_dealloc)] fn $n() { html_text::<$t, $k>() })* } }
+macro_rules! ht_h { ($($n:ident: $t:expr, $k:expr;)*) => { $(#[kani::proof] #[kani::unwind(8)] #[kani::stub(std::ptr::drop_in_place, no_drop)] #[kani::stub(core::ptr::drop_glue, no_glue)] #[kani::stub(std::vec::Vec::extend_from_slice, extend_from_slice_model)] #[kani::stub(alloc::alloc::dealloc, no_dealloc)] fn $n() { html_text::<$t, $k>() })* } }
 ht_h! { vhtml_absent: false, 0; vhtml_str: false, 1; vhtml_expr: false, 2; vhtml_array: false, 3; vhtml_empty: false, 4; vhtml_element: false, 5; vhtml_fragment: false, 6;
         vtext_absent: true, 0; vtext_str: true, 1; vtext_expr: true, 2; vtext_array: true, 3; vtext_empty: true, 4; vtext_element: true, 5; vtext_fragment: true, 6; }
 
@@ -181,7 +181,7 @@ fn vmodel<const F: u8>() {
     }
     std::mem::forget(a);
 }
-macro_rules! vm_h { ($($n:ident: $k:expr;)*) => { $(#[kani::proof] #[kani::unwind(12)] #[kani::stub(std::ptr::drop_in_place, no_drop)] #[kani::stub(core::ptr::drop_glue, no_glue)] #[kani::stub(alloc::alloc::dealloc, no_dealloc)] fn $n() { vmodel::<$k>() })* } }
+macro_rules! vm_h { ($($n:ident: $k:expr;)*) => { $(#[kani::proof] #[kani::unwind(12)] #[kani::stub(std::ptr::drop_in_place, no_drop)] #[kani::stub(core::ptr::drop_glue, no_glue)] #[kani::stub(std::vec::Vec::extend_from_slice, extend_from_slice_model)] #[kani::stub(alloc::alloc::dealloc, no_dealloc)] fn $n() { vmodel::<$k>() })* } }
 vm_h! { vmodel_plain: 0; vmodel_suffix_modifier: 1; vmodel_ns_arg: 2; vmodel_ns_arg_modifier: 3; vmodel_array_strarg: 4; vmodel_array_computed: 5; vmodel_array_mods: 6; vmodel_array_arg_mods: 7; vmodel_camel: 8; vmodel_ns_arg_array_form: 9; vmodel_ns_arg_modifier_array_form: 10; }
 
 /// resolve_directive (C04 vShow / resolveDirective(name); C05 model directive by host and `type`).
@@ -216,7 +216,7 @@ fn resolve<const NAME: u8, const HOST: u8, const TYPE: u8>() {
     }
     std::mem::forget(e); std::mem::forget(el); std::mem::forget(v);
 }
-macro_rules! rs_h { ($($n:ident: $a:expr, $b:expr, $c:expr;)*) => { $(#[kani::proof] #[kani::unwind(8)] #[kani::stub(std::ptr::drop_in_place, no_drop)] #[kani::stub(core::ptr::drop_glue, no_glue)] #[kani::stub(alloc::alloc::dealloc, no_dealloc)] #[kani::stub(alloc::fmt::format, fmt_marker)] fn $n() { resolve::<$a, $b, $c>() })* } }
+macro_rules! rs_h { ($($n:ident: $a:expr, $b:expr, $c:expr;)*) => { $(#[kani::proof] #[kani::unwind(8)] #[kani::stub(std::ptr::drop_in_place, no_drop)] #[kani::stub(core::ptr::drop_glue, no_glue)] #[kani::stub(std::vec::Vec::extend_from_slice, extend_from_slice_model)] #[kani::stub(alloc::alloc::dealloc, no_dealloc)] #[kani::stub(alloc::fmt::format, fmt_marker)] fn $n() { resolve::<$a, $b, $c>() })* } }
 rs_h! { resolve_show: 0, 3, 0; resolve_custom: 2, 3, 0; resolve_model_input_notype: 1, 0, 0; resolve_model_input_checkbox: 1, 0, 1; resolve_model_input_radio: 1, 0, 2;
         resolve_model_input_text: 1, 0, 3; resolve_model_input_dynamic: 1, 0, 4; resolve_model_input_type_after_other: 1, 0, 5; resolve_model_select: 1, 1, 0;
         resolve_model_select_with_type: 1, 1, 1; resolve_model_textarea: 1, 2, 0; resolve_model_other_element: 1, 3, 0; }
